@@ -179,6 +179,14 @@ class FieldData:
         (self.__class__.STORAGE_KEY == "name" and \
         fieldname == self.__class__.NAME_FIELD):
          renaming_connected = True
+         if self.__class__.STORAGE_KEY == "name":
+           other = self._gfa.line(value) if isinstance(value, str) else None
+           if other is not None and other is not self:
+             raise gfapy.NotUniqueError(
+               "Line: {}\n".format(str(self))+
+               "Cannot rename the line to '{}'\n".format(value)+
+               "ID not unique\n"+
+               "Matching previous line: {}".format(str(other)))
          self._gfa._unregister_line(self)
     if value is None:
       if fieldname in self._data:
